@@ -31,6 +31,8 @@ def install(world):
     world.generic_models.update(G)
     world.to_iter = to_iter
     world.map_index = map_index
+    world.collect_list = lambda m, xs, ty: collect_into(m, ListIt(xs), ty)
+    world.list_iter = lambda xs: ListIt(xs)
 
 
 # ------------------------------------------------------------------ iterator objects
@@ -310,6 +312,9 @@ def to_iter(m, v):
     if isinstance(v, Agg) and v.ty in ("RangeInclusive",):
         return RangeIt(v.fields[0], v.fields[1] + 1)
     if isinstance(v, BoxObj): return to_iter(m, v.fields[0])
+    if isinstance(v, Agg) and (v.ty, "Iterator") in m.world.impl_pairs(): return CrateIt(v.ty, v0)
+    if isinstance(v, Agg) and (v.ty, "IntoIterator") in m.world.impl_pairs():
+        return to_iter(m, m.call_path(f"<{v.ty} as IntoIterator>::into_iter", [v0]))
     raise Unsupported(f"to_iter {v!r}")
 
 
@@ -369,7 +374,11 @@ def extend_container(m, r, xs):
 @generic("<_ as IntoIterator>::into_iter")
 def g_into_iter(m, path, v):
     dv = deref(v)
-    if isinstance(dv, Agg) and dv.ty not in ("Option", "Result", "Range", "RangeInclusive"): return NotImplemented
+    if isinstance(dv, Agg) and dv.ty not in ("Option", "Result", "Range", "RangeInclusive"):
+        if (dv.ty, "Iterator") in m.world.impl_pairs(): return v          # blanket `impl<I: Iterator> IntoIterator for I`
+        if (dv.ty, "IntoIterator") in m.world.impl_pairs() and "impl " in path.split(" as ")[0]:
+            return m.call_path(f"<{dv.ty} as IntoIterator>::into_iter", [v])
+        return NotImplemented
     return to_iter(m, v)
 
 
@@ -394,7 +403,9 @@ def _crate_iter(v):
 
 class CrateIt(It):
     """wraps a crate value that implements Iterator (interpreted `next`)"""
-    def __init__(self, path_ty, val): self.ty, self.cell = path_ty, [val]
+    def __init__(self, path_ty, val):
+        dv = deref(val)
+        self.ty, self.cell = (dv.ty if isinstance(dv, Agg) else path_ty), [val]
     def nxt(self, m):
         r = m.call_path(f"<{self.ty} as Iterator>::next", [Ref(self.cell, 0)])
         return r.fields[0] if r.tag == 1 else STOP
@@ -494,6 +505,31 @@ def i_nth(m, path, r, n):
         v = s.nxt(m)
         if v is STOP: return NONE()
     return SOME(v)
+
+
+@adapter("reduce")
+def i_reduce(m, path, it, f):
+    s = src_iter(m, path, it)
+    acc = s.nxt(m)
+    if acc is STOP: return NONE()
+    while True:
+        x = s.nxt(m)
+        if x is STOP: return SOME(acc)
+        acc = m.call_value(f, [acc, x])
+
+
+@model("IndexMap::get_key_value", "HashMap::get_key_value", "BTreeMap::get_key_value")
+def map_get_key_value(m, r, k):
+    mp = deref(r)
+    i = find_key(m, mp, k)
+    return SOME(TUP(Ref(mp.items[i], 0), Ref(mp.items[i], 1))) if i >= 0 else NONE()
+
+
+@model("HashSet::get", "IndexSet::get", "BTreeSet::get")
+def set_get(m, r, k):
+    mp = deref(r)
+    i = find_key(m, mp, k)
+    return SOME(Ref(mp.items[i], 0)) if i >= 0 else NONE()
 
 
 @adapter("fold")
